@@ -143,7 +143,7 @@ def asan_unit(name, harness, cases, args=(), shards=16, **kw):
 
 prop("C14",
      fuzz=dict(prop=14, workers=8, seconds=120),
-     units=lambda tier: [Unit("c14", ["c14.cpp", "mon_alloc.c"], LibCfg(name="shipped+allocmon", alloc_redirect=True), cases=scale(tier, 20000, 400000), shards=12),
+     units=lambda tier: [Unit("c14", ["c14.cpp", "mon_alloc.c"], LibCfg(name="shipped+allocmon", alloc_redirect=True), cases=scale(tier, 20000, 200000), shards=12),
                          Unit("c14-asan", ["c14.cpp", "mon_alloc.c"], LibCfg(name="asan+allocmon", cc="gcc", opt="-O1", cflags=ASAN_FLAGS, alloc_redirect=True),
                               cases=scale(tier, 3000, 80000), shards=4 if tier == "quick" else 16, link_flags=["-fsanitize=address,undefined"], env=ASAN_ENV, args=["--heap", "1"])],
      level="exploration",
@@ -406,7 +406,7 @@ CLANG_O2 = LibCfg(name="clang-O2", cc="clang", opt="-O2")
 
 def c11_units(tier):
     q = tier == "quick"
-    n_vg = scale(tier, 500, 8000); n_p = scale(tier, 6000, 100000)
+    n_vg = scale(tier, 500, 3000); n_p = scale(tier, 6000, 30000)
     u = [Unit("c11-memcheck-O0", "c11.cpp", GCC_O0, cases=n_vg, shards=6 if q else 16, wrapper=VG, args=["--mode", "vg"]),
          Unit("c11-memcheck-shipped", "c11.cpp", SHIPPED, cases=n_vg, shards=4 if q else 16, wrapper=VG, args=["--mode", "vg"]),
          # same seeds, separate processes (different ASLR), different optimisation levels / compilers: digests must agree
@@ -506,7 +506,7 @@ prop("C12",
 
 # ----------------------------------------------------------------------------- C13 (back-end selection)
 def c13_units(tier):
-    n = scale(tier, 5000, 120000); q = tier == "quick"
+    n = scale(tier, 5000, 50000); q = tier == "quick"
     u = []
     def mon(cfg):
         return LibCfg(name=cfg.name + "+allocmon", cc=cfg.cc, opt=cfg.opt, cflags=cfg.cflags, defs=cfg.defs, vec128=cfg.vec128, vec256=cfg.vec256, alloc_redirect=True)
